@@ -740,20 +740,23 @@ def getEmpty (s : PS) : Option It :=
 inductive TermStep where
   /-- an empty term not followed by `,`: leave the loop, the term is not pushed -/
   | stop (s : PS)
+  /-- an empty term followed by `,` (consumed): the empty term is skipped, as a trailing comma is (the repair of D24) -/
+  | skip (s : PS)
   /-- push the term; `more` = a `,` followed (and was consumed) -/
   | push (s : PS) (more : Bool)
 
-/-- the shared tail of the loops of `get_input` and `get_output` (parser.rs:1016-1031, 1064-1078): an empty term
-    must be followed by `,`; a diacritic directly after a non-empty term is an error (after an EMPTY term, `t,,ʰ`, there
-    is no element it could belong to and the stray token is left to the caller - the repair of D30); then an optional `,` -/
+/-- the shared tail of the loops of `get_input` and `get_output` (parser.rs:1016-1035, 1066-1083): an empty term is
+    skipped when a `,` follows and ends the list otherwise; a diacritic directly after a (non-empty) term is an error;
+    then an optional `,` -/
 def termStep (term : List PItem) (s1 : PS) : PRes TermStep :=
-  let (cm, s2) := if term.isEmpty then s1.expect .comma else (true, s1)
-  if term.isEmpty && !cm then .ok (.stop s2)
+  if term.isEmpty then
+    let (cm, s2) := s1.expect .comma
+    if cm then .ok (.skip s2) else .ok (.stop s2)
   else
-    match (if isDiacritic s2.cur.kind then term.getLast? else none) with
-    | some it => .err ⟨"UnexpectedDiacritic", [(it.pos.start, it.pos.stop), (s2.cur.start, s2.cur.stop)]⟩
+    match (if isDiacritic s1.cur.kind then term.getLast? else none) with
+    | some it => .err ⟨"UnexpectedDiacritic", [(it.pos.start, it.pos.stop), (s1.cur.start, s1.cur.stop)]⟩
     | none =>
-      let (cm2, s3) := s2.expect .comma
+      let (cm2, s3) := s1.expect .comma
       .ok (.push s3 cm2)
 
 /-- `get_input` (parser.rs:1000-1037) -/
@@ -775,6 +778,7 @@ def inputLoop : Nat → PS → List (List PItem) → PRes (List (List PItem) × 
         else
           match termStep term s1 with
           | .ok (.stop s2) => .ok (inputs, s2)
+          | .ok (.skip s2) => inputLoop fuel s2 inputs
           | .ok (.push s3 true) => inputLoop fuel s3 (inputs ++ [term])
           | .ok (.push s3 false) => .ok (inputs ++ [term], s3)
           | .err e => .err e | .panic p => .panic p | .outOfFuel p => .outOfFuel p
@@ -816,6 +820,7 @@ def outputLoop : Nat → PS → List (List PItem) → PRes (List (List PItem) ×
           else
             match termStep term s1 with
             | .ok (.stop s2) => .ok (outputs, s2)
+            | .ok (.skip s2) => outputLoop fuel s2 outputs
             | .ok (.push s3 true) => outputLoop fuel s3 (outputs ++ [term])
             | .ok (.push s3 false) => .ok (outputs ++ [term], s3)
             | .err e => .err e | .panic p => .panic p | .outOfFuel p => .outOfFuel p
